@@ -293,8 +293,8 @@ pub fn run(report: &Report) {
         "ans_inspections_with_interior_zero_state_word", "bit_coder_inspections", "bit_coder_inspections_at_word_boundary"] {
         report.require(n);
     }
-    explore_range::<U8U16>(report, &range_alphabet12::<U8U16>(), if q { 5 } else { 6 }, "a12@P8");
-    explore_range::<U8U32>(report, &range_alphabet12::<U8U32>(), if q { 5 } else { 6 }, "a12@P8");
+    explore_range::<U8U16>(report, &range_alphabet12::<U8U16>(), if q { 6 } else { 7 }, "a12@P8");
+    explore_range::<U8U32>(report, &range_alphabet12::<U8U32>(), if q { 6 } else { 7 }, "a12@P8");
     explore_range::<U8U32>(report, &range_alphabet5::<U8U32>(), if q { 8 } else { 9 }, "a5@P8");
     explore_range::<U8U16>(report, &small_alphabet::<U8U16>(), if q { 4 } else { 5 }, "mixed-precision-14");
     explore_range::<U8U64>(report, &range_alphabet5::<U8U64>(), if q { 6 } else { 8 }, "a5@P8");
@@ -303,7 +303,7 @@ pub fn run(report: &Report) {
     explore_range::<U64U128>(report, &small_alphabet::<U64U128>(), if q { 3 } else { 4 }, "mixed-precision-14");
     explore_ans::<U8U16>(report, &inits_with_binary::<U8U16>(), &small_alphabet::<U8U16>(), if q { 3 } else { 5 }, "mixed-precision-14");
     explore_ans::<U8U32>(report, &inits_with_binary::<U8U32>(), &small_alphabet::<U8U32>(), if q { 3 } else { 5 }, "mixed-precision-14");
-    explore_ans::<U8U32>(report, &[vec![]], &small_alphabet::<U8U32>(), if q { 5 } else { 6 }, "mixed-precision-14");
+    explore_ans::<U8U32>(report, &[vec![]], &small_alphabet::<U8U32>(), if q { 6 } else { 7 }, "mixed-precision-14");
     explore_ans::<U8U64>(report, &inits_with_binary::<U8U64>(), &small_alphabet::<U8U64>(), if q { 3 } else { 4 }, "mixed-precision-14");
     explore_ans::<U16U32>(report, &inits_with_binary::<U16U32>(), &small_alphabet::<U16U32>(), if q { 3 } else { 4 }, "mixed-precision-14");
     explore_ans::<U16U64>(report, &inits_with_binary::<U16U64>(), &small_alphabet::<U16U64>(), if q { 2 } else { 4 }, "mixed-precision-14");
